@@ -39,6 +39,16 @@ pub fn run_c08<A: Cx>(d: &mut Drv<A>, scale: usize, all: bool) {
                 for (a, b) in [(o, o + k), (o, o + k - 1), (o, o + k + 1), (o, o), (o + 1, o + 1 + k)] {
                     d.emit(json!({"op": "kfrom", "kd": 0, "src": sl(0, a, b), "k": k, "st": st, "via": "slice"}));
                 }
+                // lengths that alias K modulo a power of two are wrong lengths too
+                let longer = d.rand_syms(k + 1030);
+                d.emit(json!({"op": "fromsyms", "dst": 3, "c": A::NAME, "via": "iter", "syms": longer}));
+                for extra in [16usize, 32, 64, 128, 256, 1024] {
+                    d.emit(json!({"op": "kfrom", "kd": 3, "src": sl(3, 1, 1 + k + extra), "k": k, "st": st, "via": "slice"}));
+                }
+                let mut lt = d.rand_text(k + 256);
+                d.emit(json!({"op": "kparse", "kd": 3, "c": A::NAME, "k": k, "st": st, "bytes": lt}));
+                lt.truncate(k + 64);
+                d.emit(json!({"op": "kparse", "kd": 3, "c": A::NAME, "k": k, "st": st, "bytes": lt}));
                 d.emit(json!({"op": "kobs", "ks": 0, "via": "view"}));
                 if st == "usize" {
                     d.emit(json!({"op": "kfrom", "kd": 1, "src": sl(0, o, o + k), "k": k, "st": st, "via": "seq"}));
